@@ -1265,6 +1265,9 @@ class Evaluator:
             if base.cls is not None:
                 f = self.P.method(base.cls, attr)
                 if f is not None:
+                    if getattr(f, "is_property", False):
+                        # reading a property runs its getter
+                        return self.call_closure(Closure(f, None, selfv=base), [], {}, st)
                     return Closure(f, None, selfv=base)
             if attr in ("sort", "reverse", "append", "extend", "pop", "insert", "remove", "index", "copy") and (base.kind in ("seq", "copy") or (base.cls is None and base.kind not in ("new", "obj")) or "[" in base.text.rsplit(".", 1)[-1]):
                 return Bound(base, attr)
@@ -1700,10 +1703,15 @@ class Evaluator:
                 return C(round(x.const_value()) if name == "round" else abs(x.const_value()))
             return Num.atom((name, x.key()))
         if name in ("max", "min") and len(args) >= 2 and allnum:
+            if len({x.key() for x in nums}) == 1:
+                return nums[0]  # max(x, x) == x
             if all(x.is_const() for x in nums):
                 return C((max if name == "max" else min)(x.const_value() for x in nums))
             return Num.atom((name,) + tuple(sorted(x.key() for x in nums)))
         if name in ("max", "min") and len(args) == 1:
+            its = self.iter_items(args[0])
+            if its and all(as_num(x) is not None for x in its) and len({as_num(x).key() for x in its}) == 1:
+                return as_num(its[0])  # the extreme of equal values is that value
             return Num.atom((name + "-of", key(args[0])))
         if name == "len" and len(args) == 1:
             a = args[0]
@@ -1846,6 +1854,11 @@ class Evaluator:
                 return NONE
         if name == "copy.deepcopy" and len(args) == 1:
             return args[0] if isinstance(args[0], (Num, Const)) else Opaque("deepcopy(%s)" % key(args[0]), cls=getattr(args[0], "cls", None), kind="deepcopy")
+        if name in ("datetime.datetime", "datetime.time") and not kwargs:
+            # trailing zero time fields are the defaults: datetime(y, m, d, 0, 0, 0, 0) == datetime(y, m, d)
+            keep = 3 if name == "datetime.datetime" else 0
+            while len(args) > keep and num_const(args[-1]) == 0:
+                args = args[:-1]
         txt = "%s(%s)" % (name, ", ".join([key(a) for a in args] + ["%s=%s" % (k, key(v)) for k, v in sorted(kwargs.items())]))
         st.events.append(("call-ext", name, [key(a) for a in args], node))
         if allnum and args and short in ("floor", "ceil"):
